@@ -35,7 +35,10 @@ RULE = ('Units level: all ordered pairs of the named Units constants (quick) and
         'unit-aware operation (+ - += -= * / *= /= ** sqrt reciprocal norm norm_sq dot cross outer element_mul/div == != '
         '< <= > >= stack from_scalars arctan2 sin cos tan exp arcsin arccos arctan int frac log inverse rotations) on every '
         'class that allows units with operand units drawn from {None, named, generated}, and constructor/set_units on the '
-        'classes that disallow units; into_units/from_units/set_units/without_units with derivatives. A case is '
+        'classes that disallow units; into_units/from_units/set_units/without_units with derivatives; histories: object '
+        'with derivatives, cached views touched (.wod, antimask, product, norm), units changed by set_units / '
+        'without_units / into_units / from_units / on a clone() or copy(), then the operation catalogue on the object '
+        'and on its .wod. A case is '
         'non-trivial when at least one operand has units other than None/UNITLESS; distinct = distinct request line.')
 ASSUMPTIONS = ['numerators and denominators are positive integers (the constructor is not modelled for zero or negative '
                'coefficients); float triples are outside the exact model (answer "inexact")',
@@ -172,6 +175,24 @@ def gen_cases(rng, tier):
         add(op='mk', e=[rng.randint(-3, 3) for _ in range(3)], n=rng.choice([1, 2, 6, 60, 180, 256, 1000, 3600, 10**12]),
             d=rng.choice([1, 2, 4, 12, 180, 512, 1000, 86400, 10**15]), p=rng.randint(-3, 3))
 
+    # ---- negative coefficients (outside the exact model, which keeps numerators in N: judged by the oracle only;
+    #      zero coefficients raise ZeroDivisionError in the constructor and are not specified by the property)
+    negs = [(-2, 1), (-5, 2), (-1, 8), (-3, 1)]
+    for a in distinct:
+        for (n, d) in negs:
+            na = ['num*', a, n, d]
+            b = rng.choice(distinct)
+            nb = ['num*', b, *rng.choice(negs)]
+            for other in (b, nb):
+                add(op='mul', a=na, b=other); add(op='div', a=na, b=other); add(op='div', a=other, b=na)
+                for law in ('comm', 'cancel', 'cancel2'):
+                    add(op='law', law=law, a=na, b=other)
+            add(op='law', law='assoc', a=na, b=nb, c=rng.choice(distinct))
+            add(op='law', law='divself', a=na)
+            for p in (-6, -4, -2, 0, 2, 4, 6):
+                add(op='powr', a=na, p=p)
+            add(op='law', law='powadd', a=na, p=rng.randint(-3, 3), q=rng.randint(-3, 3))
+            add(op='static', fn=rng.choice(['mul_units', 'div_units']), a=na, b=rng.choice([None, nb]), name=None)
     # ---- triples
     trip = list(itertools.product(distinct, repeat=3)) if thorough else \
         [tuple(rng.choice(distinct) for _ in range(3)) for _ in range(1500)]
@@ -229,6 +250,40 @@ def gen_cases(rng, tier):
                 for (ua, ub) in pairs:
                     for p in spec.get('powers', [None]):
                         add(op='rule', oname=oname, cls=cls, shape=shape, a=ua, b=ub, p=p)
+    # ---- histories: build an object with derivatives, touch its cached views, change its units, then operate on
+    #      the object and on its .wod (the unit-aware catalogue, judged on the units the history gave it)
+    hist_ops = [o for o in OBJ_OPS if o not in ('from_scalars', 'arctan2')]
+    same_dim = {'KM': ['M', 'MICRON', 'KM'], 'M': ['KM', 'CM'], 'S': ['MIN', 'MSEC'], 'DEG': ['RAD', 'ARCSEC', 'CYCLES'],
+                'RAD': ['DEG'], 'UNITLESS': ['UNITLESS']}
+    nhist = 40000 if thorough else 9000
+    for i in range(nhist):
+        oname = hist_ops[i % len(hist_ops)]
+        spec = OBJ_OPS[oname]
+        cls = rng.choice(spec['classes'])
+        shape = rng.choice(spec.get('shapes', [[], [2]]))
+        change = rng.choice(HIST_CHANGES)
+        if oname in ('eq', 'ne') and change in ('into', 'from'):
+            change = 'set_units'            # == compares stored values: the scaled copy differs by construction
+        new = rng.choice(['KM', 'M', 'S', 'DEG', 'RAD', 'UNITLESS', ['*', 'M', 'M'], ['/', 'KM', 'S'], 'STER', gen_unit(rng)])
+        if change in ('into', 'from', 'without', 'set_none'):
+            cur, new = new, None
+        else:
+            cur = rng.choice([None, None, rng.choice(same_dim[new])]) if isinstance(new, str) and new in same_dim \
+                else rng.choice([None, new])
+        eff = hist_effective(change, cur, new)
+        if spec['arity'] == 2:
+            b = rng.choice([eff, eff, None, 'S', 'KM', 'DEG', ['/', 'KM', 'S'], rng.choice(small)])
+        else:
+            b = None
+        nder = rng.choice([1, 1, 2, 0])
+        touch = rng.sample(HIST_TOUCHES, rng.randint(0, 3))
+        if rng.random() < 0.5 and 'wod' not in touch:
+            touch.insert(0, 'wod')
+        both = eff is not None and b is not None
+        add(op='hist', oname=oname, cls=cls, shape=shape, cur=cur, new=new, change=change, touch=touch,
+            target=rng.choice(['obj', 'wod']), nderivs=nder, dunits=bool(eff is not None and (both or spec['arity'] == 1)),
+            a=eff, b=b, bderiv=bool(both and spec['arity'] == 2 and nder and rng.random() < 0.6),
+            p=rng.choice(spec['powers']) if 'powers' in spec else None)
     # classes that disallow units
     for cls in NO_UNITS:
         for u in [None, 'UNITLESS', 'KM', 'DEG', ['/', 'KM', 'S']]:
